@@ -14,6 +14,7 @@ DRIVER = 'harness/delayedobjects_drv.cpp'
 EXTRACT = 'Extract/DelayedObjectsExtract.v'
 ML = 'delayedobjects_model'
 SANITIZE = False
+ENUM = True
 
 GETF, SETC, SETM, FULFILL, ISREC, ISCOMP, FINISHED, FREADY, FGET = range(9)
 LOCKING = (GETF, SETC, SETM, FULFILL, ISREC, ISCOMP, FINISHED)
